@@ -410,8 +410,10 @@ def text_form(v):
         raise _ErrSignal(v)
     if isinstance(v, str):
         return v
-    if isinstance(v, bool) or v is BLANK:
-        raise OutOfDomain('text form of bool/blank')
+    if isinstance(v, bool):
+        return 'TRUE' if v else 'FALSE'
+    if v is BLANK:
+        return ''
     if isinstance(v, int):
         if abs(v) >= 10 ** 11:
             raise OutOfDomain('large int text form')
@@ -419,11 +421,12 @@ def text_form(v):
     if isinstance(v, float):
         if v != v or v in (math.inf, -math.inf):
             raise OutOfDomain('non-finite')
-        r = repr(v)
-        if 'e' in r or 'E' in r or v == int(v):
-            raise OutOfDomain('float text form')
-        if len(r.split('.')[1]) > 4 or abs(v) >= 10 ** 9:
-            raise OutOfDomain('long decimal text form')
+        if abs(v) >= 10 ** 9 or (v != 0 and abs(v) < 1e-4):
+            raise OutOfDomain('float text form with an exponent')
+        # 15 significant digits, general format: 3/3 -> 1, 0.1+0.2 -> 0.3, 2.50 -> 2.5
+        r = '%.15g' % v
+        if 'e' in r:
+            raise OutOfDomain('float text form with an exponent')
         return r
     raise OutOfDomain(f'text form of {type(v).__name__}')
 
